@@ -5,7 +5,11 @@ FractionScalar / Array validation with the NaN-skipping min/max scan, tuple bran
 IsValid, UnitDatabase.AddCategory).  Tie: histories over a PRIVATE category-less POSC database: AddCategory
 calls (all argument kinds, malformed ones included) followed by value objects that are checked through
 CheckValidity / IsValid call sequences; executed on the real code and on the model (`drv_valid`), compared
-step by step (verdict, operator, limit, reported amount, category info, error kinds)."""
+step by step (verdict, operator, limit, reported amount, category info, error kinds).  Objects that come OUT OF AN
+OPERATION (arithmetic, mapping/list forms of ObtainQuantity, pickle, CreateCopy, CreateWithQuantity) are described by
+production trees (`prov` operations): built on the real code, predicted by `Barril.Valid.build`, judged by the oracle
+as objects of THEIR category holding THEIR amounts.  `gdv` / `cvc` / `val` operations: GetDefaultValue,
+CheckValueForCategory, ScalarMinMaxValidator."""
 import math
 
 from common import close, err_kind, exact, qparse, qstr, sym, unsym, EPS, K
@@ -22,8 +26,16 @@ RULE = ("histories over a fresh private database (POSC units, no categories): on
         "outside, 0, NaN, +-inf}, NaN-padded and permuted arrays, CheckValidity/IsValid call sequences (cached "
         "verdict); a registration stream with malformed arguments (unknown type/unit, legacy spellings, crossed "
         "limits, exclusive limit without default, default outside, from_category, override) each followed by "
-        "Scalar(category); distinct = distinct history line; non-trivial = a limited category is checked in a "
-        "non-default unit or a registration is decided")
+        "Scalar(category); PRODUCED objects of a limited category: production trees (depth <= 3, plus a fixed history) "
+        "over direct construction, ObtainQuantity({cat: [unit, exp]}) / ObtainQuantity([(unit, exp)], cats) with "
+        "CreateWithQuantity or the constructor, Array/FixedArray/Scalar <op> number on either side (+ - * /, NaN/inf "
+        "included), sums/differences with an object in another unit or of another category of the quantity type (or "
+        "of another type: refused), pickle round trips (Scalar, FixedArray), CreateCopy, validity calls on "
+        "intermediates; the operands start inside the limits and about half of the results are pushed over one; "
+        "AddCategory with explicit None for is_min_exclusive / is_max_exclusive / caption (with and without "
+        "from_category), GetDefaultValue, CheckValueForCategory (with / without unit) and ScalarMinMaxValidator at "
+        "the exact limits, inside and outside; distinct = distinct history line; non-trivial = a limited category is "
+        "checked in a non-default unit or a registration is decided")
 EXHAUSTIVE = {"quick": False, "thorough": False}
 ASSUMPTIONS = [
     "limits of a category are finite numbers; finite values stay below 1e150 (no float overflow is modelled)",
@@ -33,6 +45,12 @@ ASSUMPTIONS = [
     "(a + b*x)/(c + d*x)): generated table theorem `valshape` over all rows; numpy scalars are converted by float() "
     "before CheckValue",
     "the caption's title-casing in AddCategory is not modelled; aliasing of a mutable list handed to Array is C13's",
+    "produced objects: operations on an object whose quantity is already derived, numpy's answer to a zero divisor, "
+    "FloorDivide, Array <op> numpy array, arithmetic on lists of tuples, CreateCopy of a FractionScalar and mappings "
+    "with a repeated category are not modelled (kept out of the generators); a plain Array cannot be pickled with a private "
+    "database (its _unit_database holds local functions), so pickle round trips are Scalars and FixedArrays",
+    "ScalarMinMaxValidator reports through a message only: operator and limit are read off the text after 'Must be' "
+    "(comparison in words, then repr of the limit) and compared when they can be read; the 6-digit amount is not",
 ]
 QTYPES_QUICK = ["length", "temperature", "time", "pressure"]
 CONTAINERS = ("list", "tuple", "ndarray")
@@ -112,10 +130,26 @@ def setup(ctx):
 
 # ------------------------------------------------------------------------------------------ operations
 def add_op(category, qtype=None, valid=None, override=False, du=None, dv=None, mn=None, mx=None, minx=False,
-           maxx=False, frm=None):
+           maxx=False, frm=None, caption=""):
+    """minx / maxx / caption may be None: an explicit `None` argument"""
     return dict(k="add", category=category, qtype=qtype, valid=valid, override=override, du=du,
                 dv=None if dv is None else T(dv), min=None if mn is None else T(mn), max=None if mx is None else T(mx),
-                minx=minx, maxx=maxx, frm=frm)
+                minx=minx, maxx=maxx, frm=frm, caption=caption)
+
+
+def gdv_op(cat):
+    """UnitDatabase.GetDefaultValue(cat)"""
+    return dict(k="gdv", cat=cat)
+
+
+def cvc_op(cat, v, unit):
+    """UnitDatabase.CheckValueForCategory(cat, v, unit)   (unit may be None)"""
+    return dict(k="cvc", cat=cat, v=T(v), unit=unit)
+
+
+def val_op(cat, unit, v):
+    """ScalarMinMaxValidator on Scalar(cat, v, unit)"""
+    return dict(k="val", cat=cat, unit=unit, v=T(v))
 
 
 def obj_op(cat, unit, obj, calls, default=False, fixed=False):
@@ -127,6 +161,46 @@ def copy_op(cat, unit, obj, calls, cunit, ccat, ccalls, fixed=False):
     """Array(cat, values, unit); <calls>; copy = CreateCopy(unit=cunit, category=ccat); <ccalls on the copy>"""
     return dict(k="copy", cat=cat, unit=unit, obj=obj, calls=list(calls), cunit=cunit, ccat=ccat,
                 ccalls=list(ccalls), fixed=fixed)
+
+
+def prov_op(tree, calls):
+    """an object that comes out of the production tree (see `_build_prov`), then the calls on it"""
+    return dict(k="prov", tree=tree, calls=list(calls))
+
+
+def p_direct(cat, unit, obj, fixed=False):
+    return dict(p="direct", cat=cat, unit=unit, obj=obj, fixed=fixed)
+
+
+def p_map(entries, obj, fixed=False, plain=False, form="cwq"):
+    """X.CreateWithQuantity(ObtainQuantity({cat: [unit, exp], ...}), values)   (form "ctor": X(quantity, values))"""
+    return dict(p="map", entries=[list(e) for e in entries], obj=obj, fixed=fixed, plain=plain, form=form)
+
+
+def p_list(units, cats, obj, fixed=False, form="cwq"):
+    """the same with ObtainQuantity([(unit, exp), ...], cats): cats None, a str or a list of str"""
+    return dict(p="list", units=[list(u) for u in units], cats=cats, obj=obj, fixed=fixed, form=form)
+
+
+def p_num(of, op, x, left=False):
+    return dict(p="num", of=of, op=op, x=T(x), left=left)
+
+
+def p_bin(a, b, op):
+    return dict(p="bin", a=a, b=b, op=op)
+
+
+def p_pickle(of):
+    return dict(p="pickle", of=of)
+
+
+def p_validated(of, calls):
+    """CheckValidity / IsValid on the intermediate object (answers dropped), then it is used further"""
+    return dict(p="validated", of=of, calls=list(calls))
+
+
+def p_copy(of, unit, cat):
+    return dict(p="copy", of=of, unit=unit, cat=cat)
 
 
 def o_scalar(v):
@@ -166,9 +240,42 @@ def _enc_obj(o):
     raise ValueError(t)
 
 
+def _enc_tree(n):
+    p = n["p"]
+    if p == "direct":
+        return dict(p=p, cat=S(n["cat"]), unit=S(n["unit"]), obj=_enc_obj(n["obj"]))
+    if p == "map":
+        return dict(p=p, entries=[[S(c), S(u), int(e)] for c, u, e in n["entries"]], obj=_enc_obj(n["obj"]))
+    if p == "list":
+        cats = n["cats"]
+        return dict(p=p, units=[[S(u), int(e)] for u, e in n["units"]],
+                    cats=None if cats is None else S(cats) if isinstance(cats, str) else [S(c) for c in cats],
+                    obj=_enc_obj(n["obj"]))
+    if p == "num":
+        return dict(p=p, of=_enc_tree(n["of"]), op=n["op"], x=V(U(n["x"])), left=n["left"])
+    if p == "bin":
+        return dict(p=p, a=_enc_tree(n["a"]), b=_enc_tree(n["b"]), op=n["op"])
+    if p == "pickle":
+        return dict(p=p, of=_enc_tree(n["of"]))
+    if p == "copy":
+        return dict(p=p, of=_enc_tree(n["of"]), unit=S(n["unit"]), cat=S(n["cat"]))
+    if p == "validated":
+        return dict(p=p, of=_enc_tree(n["of"]), calls=n["calls"])
+    raise ValueError(p)
+
+
 def _enc(op):
+    if op["k"] == "prov":
+        return {"k": "prov", "tree": _enc_tree(op["tree"]), "calls": op["calls"]}
+    if op["k"] == "gdv":
+        return {"k": "gdv", "cat": S(op["cat"])}
+    if op["k"] == "cvc":
+        return {"k": "cvc", "cat": S(op["cat"]), "v": V(U(op["v"])), "unit": S(op["unit"])}
+    if op["k"] == "val":
+        return {"k": "val", "cat": S(op["cat"]), "unit": S(op["unit"]), "v": V(U(op["v"]))}
     if op["k"] == "add":
-        return {"k": "add", "category": S(op["category"]), "qtype": S(op["qtype"]),
+        extra = {} if op.get("caption", "") == "" else {"caption": S(op["caption"])}
+        return {**extra, "k": "add", "category": S(op["category"]), "qtype": S(op["qtype"]),
                 "valid": None if op["valid"] is None else [S(u) for u in op["valid"]],
                 "override": op["override"], "du": S(op["du"]),
                 "dv": None if op["dv"] is None else V(U(op["dv"])),
@@ -531,6 +638,227 @@ def _reregister_histories(ctx, salt, n):
         yield history(ops)
 
 
+def _prov_fixed_history():
+    """a limited length category (0..15 m) and objects that leave or stay inside the limits through an operation"""
+    cat = "c12 produced length"
+    ops = [add_op(cat, "length", du="m", dv=1.0, mn=0.0, mx=15.0),
+           add_op("c12 produced cm", "length", du="cm", dv=1.0, mn=0.0, mx=1000.0),
+           add_op("length", "length", du="m")]
+    ci = ["c", "i"]
+    for kind in CONTAINERS:
+        base = p_direct(cat, "m", o_flat(kind, [1.0, 2.0]))
+        for tree in (p_num(base, "mul", 10), p_num(base, "mul", 5), p_num(base, "mul", 10, left=True),
+                     p_num(base, "add", 14), p_num(base, "add", 13), p_num(base, "sub", 1.5),
+                     p_num(base, "sub", 16.5, left=True), p_num(p_num(base, "mul", 4), "div", 0.5),
+                     p_num(base, "div", 4, left=True), p_num(base, "mul", math.nan), p_num(base, "add", math.inf)):
+            ops.append(prov_op(tree, ci))
+    ops.append(prov_op(p_num(p_direct(cat, "cm", o_flat("list", [100.0, 200.0])), "mul", 10), ["i", "c"]))
+    ops.append(prov_op(p_num(p_direct(cat, "m", o_flat("list", [1.0, 2.0, 3.0]), fixed=True), "mul", 6), ci))
+    ops.append(prov_op(p_bin(p_direct(cat, "m", o_flat("list", [10.0, 5.0])),
+                             p_direct(cat, "cm", o_flat("list", [600.0, 100.0])), "add"), ci))
+    ops.append(prov_op(p_bin(p_direct("c12 produced cm", "cm", o_flat("tuple", [600.0, 100.0])),
+                             p_direct(cat, "m", o_flat("tuple", [10.0, 5.0])), "add"), ci))
+    for (a, ua, b, ub, o, cb) in ((10.0, "m", 900.0, "cm", "add", cat), (10.0, "m", 400.0, "cm", "add", cat),
+                                  (1.0, "m", 0.002, "km", "sub", cat), (10.0, "m", 9.0, "m", "add", "length"),
+                                  (10.0, "m", 9.0, "m", "add", cat), (9.0, "m", 10.0, "m", "add", "length")):
+        ops.append(prov_op(p_bin(p_direct(cat, ua, o_scalar(a)), p_direct(cb, ub, o_scalar(b)), o), ci))
+    for x in (2000.0, 1000.0):
+        for form in ("ctor", "cwq"):
+            ops.append(prov_op(p_map([(cat, "cm", 1)], o_scalar(x), form=form), ci))
+            ops.append(prov_op(p_map([(cat, "cm", 1)], o_flat("list", [x, 1.0]), form=form, plain=True), ci))
+    ops.append(prov_op(p_map([(cat, "cm", 2)], o_scalar(2000.0)), ci))
+    ops.append(prov_op(p_map([(cat, "cm", 1), ("c12 produced cm", "m", 1)], o_scalar(2000.0)), ci))
+    ops.append(prov_op(p_list([("mm", 1)], [cat], o_flat("list", [1000.0, 16000.0])), ci))
+    ops.append(prov_op(p_list([("mm", 1)], cat, o_flat("list", [1000.0, 14000.0])), ci))
+    ops.append(prov_op(p_list([("mm", 1), ("m", 1)], [cat], o_scalar(16000.0)), ci))
+    ops.append(prov_op(p_list([("mm", 1), ("m", 1)], [cat, "c12 produced cm"], o_scalar(16000.0)), ci))
+    ops.append(prov_op(p_pickle(p_direct(cat, "cm", o_scalar(1600.0))), ci))
+    ops.append(prov_op(p_pickle(p_num(p_direct(cat, "cm", o_scalar(160.0)), "mul", 10)), ci))
+    ops.append(prov_op(p_pickle(p_num(p_direct(cat, "m", o_flat("list", [1.0, 2.0]), fixed=True), "mul", 10)), ci))
+    ops.append(prov_op(p_copy(p_num(p_direct(cat, "m", o_flat("list", [1.0, 2.0])), "mul", 10), "cm", None), ci))
+    ops.append(prov_op(p_num(p_copy(p_direct(cat, "m", o_flat("list", [1.0, 2.0])), "cm", "c12 produced cm"), "mul", 10), ci))
+    ops.append(prov_op(p_copy(p_num(p_direct(cat, "m", o_scalar(8.0)), "mul", 2), "cm", None), ci))
+    ops.append(prov_op(p_copy(p_direct(cat, "m", o_scalar(12.0)), "cm", "c12 produced cm"), ci))
+    ops.append(prov_op(p_copy(p_direct(cat, "cm", o_scalar(1200.0)), None, "c12 produced cm"), ci))
+    for kind in CONTAINERS:   # a verdict memoised by the operand must not travel into the result (either direction)
+        ops.append(prov_op(p_num(p_validated(p_direct(cat, "m", o_flat(kind, [1.0, 2.0])), ["i"]), "mul", 10), ["i", "c"]))
+        ops.append(prov_op(p_num(p_validated(p_direct(cat, "m", o_flat(kind, [10.0, 20.0])), ["c"]), "div", 10), ["c", "i"]))
+        ops.append(prov_op(p_bin(p_validated(p_direct(cat, "m", o_flat(kind, [10.0, 20.0])), ["c", "i"]),
+                                 p_direct(cat, "cm", o_flat(kind, [900.0, 1900.0])), "sub"), ci))
+    return history(ops)
+
+
+def _prov_base(ctx, rng, cat, qt, du, u, lo, span, shape, n, fixed, kind=None):
+    """a directly described object of `cat` in unit u whose amounts are inside the limits"""
+    ys = [lo + span * rng.uniform(0.05, 0.95) for _ in range(n)]
+    xs = [float(_conv(ctx, qt, du, u, y)) for y in ys]
+    if shape == "scalar":
+        return o_scalar(xs[0]), xs
+    if rng.random() < 0.15:
+        xs.insert(rng.randrange(len(xs) + 1), math.nan)
+    return o_flat(kind or rng.choice(CONTAINERS), xs), xs
+
+
+def _prov_histories(ctx, salt, n):
+    """objects of a limited category that come out of operations: arithmetic with a number on either side, sums and
+    differences with an object written in another unit / of another category of the quantity type, the mapping and
+    list forms of ObtainQuantity, pickle round trips, CreateCopy, nested up to depth 3; about half of the results
+    are pushed over a limit"""
+    rng = ctx.fresh_rng("C12prov" + salt)
+    for i in range(n):
+        qt = rng.choice(QTYPES_QUICK)
+        us = ctx.units[qt]
+        du = rng.choice(us[:8])
+        lo, hi = _limits(rng, qt, du)
+        if hi <= lo:
+            hi = lo + 10.0
+        span = hi - lo
+        du2 = rng.choice(us[:8])
+        other_qt = rng.choice([t for t in QTYPES_QUICK if t != qt])
+        lo2 = float(_conv(ctx, qt, du, du2, lo))
+        hi2 = float(_conv(ctx, qt, du, du2, hi))
+        xm, xM = rng.random() < 0.25, rng.random() < 0.25
+        ops = [add_op("lim", qt, du=du, dv=(lo + hi) / 2, mn=lo, mx=hi, minx=xm, maxx=xM),
+               add_op("lim2", qt, du=du2, dv=(lo2 + hi2) / 2, mn=min(lo2, hi2) - abs(hi2 - lo2), mx=max(lo2, hi2) + abs(hi2 - lo2)),
+               add_op("free", qt, du=du),
+               add_op("elsewhere", other_qt, mn=0.0)]
+        for _ in range(rng.randint(8, 14)):
+            shape = rng.choice(["scalar", "array", "array"])
+            fixed = shape == "array" and rng.random() < 0.35
+            n_el = rng.randint(2, 4) if shape == "array" else 1
+            kind = rng.choice(CONTAINERS)
+            u = rng.choice([du] + rng.sample(us, 2))
+            obj, xs = _prov_base(ctx, rng, "lim", qt, du, u, lo, span, shape, n_el, fixed, kind)
+            r = rng.random()
+            if r < 0.6:
+                tree = p_direct("lim", u, obj, fixed=fixed)
+            elif r < 0.8:
+                tree = p_map([("lim", u, 1)], obj, fixed=fixed, plain=rng.random() < 0.3, form=rng.choice(["ctor", "cwq"]))
+            else:
+                tree = p_list([(u, 1)], rng.choice([["lim"], "lim", ["lim", "free"]]), obj, fixed=fixed,
+                              form=rng.choice(["ctor", "cwq"]))
+            x0 = xs[0]
+            for _depth in range(rng.choice([0, 1, 1, 1, 2, 2, 3])):
+                if rng.random() < 0.3:
+                    tree = p_validated(tree, rng.choice([["i"], ["c"], ["c", "i"]]))
+                # where the first amount should land: inside [0, 1] of the interval, or beyond a limit
+                t = rng.choice([rng.uniform(0.05, 0.95), rng.uniform(-1.5, -0.05), rng.uniform(1.05, 2.5)])
+                target = float(_conv(ctx, qt, du, u, lo + span * t))
+                step = rng.random()
+                if step < 0.3:
+                    d = target - x0
+                    if rng.random() < 0.5:
+                        tree, x0 = p_num(tree, "add", d, left=rng.random() < 0.4), x0 + d
+                    elif rng.random() < 0.6:
+                        tree, x0 = p_num(tree, "sub", -d), x0 + d
+                    else:
+                        tree, x0 = p_num(tree, "sub", x0 + target, left=True), target
+                elif step < 0.55:
+                    f = rng.choice([0.5, 2, 10, 4.0, 0.25, 3]) if x0 == 0 or not math.isfinite(target / x0) or abs(target / x0) > 1e6 \
+                        or abs(target / x0) < 1e-6 else target / x0
+                    if rng.random() < 0.6:
+                        tree, x0 = p_num(tree, "mul", f, left=rng.random() < 0.4), x0 * f
+                    else:
+                        tree, x0 = p_num(tree, "div", 1 / f), x0 / (1 / f)
+                elif step < 0.75:
+                    # another object of the same shape: other unit and/or another category of the quantity type
+                    cat2 = rng.choice(["lim", "lim", "lim2", "free", "free", "elsewhere"])
+                    qt2 = other_qt if cat2 == "elsewhere" else qt
+                    u2 = rng.choice(ctx.units[qt2][:10]) if cat2 == "elsewhere" else rng.choice([u] + rng.sample(us, 2))
+                    d_du = span * (t - 0.5) * 0.5
+                    zero_u2 = float(_conv(ctx, qt2, du, u2, 0.0)) if cat2 != "elsewhere" else 0.0
+                    d2 = float(_conv(ctx, qt2, du, u2, d_du)) if cat2 != "elsewhere" else 1.0
+                    nn = n_el + (1 if shape == "array" and rng.random() < 0.08 else 0)
+                    if shape == "scalar":
+                        obj2 = o_scalar(d2)
+                    else:
+                        obj2 = o_flat(kind if rng.random() < 0.8 else rng.choice(CONTAINERS),
+                                      [d2 if rng.random() < 0.7 else zero_u2 for _ in range(nn)])
+                    other = p_direct(cat2, u2, obj2, fixed=fixed and nn == n_el)
+                    o = rng.choice(["add", "sub"])
+                    if rng.random() < 0.75:
+                        tree = p_bin(tree, other, o)
+                    else:
+                        tree = p_bin(other, tree, o)
+                    x0 = x0  # only roughly known from here on
+                elif step < 0.85 and (shape == "scalar" or fixed):
+                    tree = p_pickle(tree)
+                elif step < 0.95:
+                    tree = p_copy(tree, rng.choice([None, u, rng.choice(us)]), rng.choice([None, None, "lim2", "lim", "free"]))
+                elif rng.random() < 0.3:
+                    tree = p_num(tree, rng.choice(["mul", "add", "sub"]), rng.choice([math.nan, math.inf, -math.inf, 0.0, 0]),
+                                 left=rng.random() < 0.3)
+                else:
+                    left = rng.random() < 0.5
+                    tree = p_num(tree, "div", rng.choice([2.0, 0.5, 8]), left=left)
+                    if left:
+                        break   # number / object: a derived quantity (1/unit); operations on derived results are not modelled
+                if not math.isfinite(x0) or abs(x0) > 1e12:
+                    break
+            ops.append(prov_op(tree, _call_seq(rng)))
+        if rng.random() < 0.5:
+            # malformed productions: unknown category / unit of another type in the mapping and list forms
+            bad_u = rng.choice(ctx.units[other_qt][:6])
+            ops.append(prov_op(p_map([(rng.choice(["lim", "missing"]), rng.choice([bad_u, du]), rng.choice([1, 1, 2, -1]))],
+                                     o_scalar(1.0)), ["i", "c"]))
+            ops.append(prov_op(p_list([(rng.choice([bad_u, du, "nope"]), rng.choice([1, 2]))],
+                                      rng.choice([None, "lim", [], ["missing"], ["lim"]]), o_scalar(1.0)), ["i", "c"]))
+        yield history(ops)
+
+
+def _api_histories(ctx, salt, n):
+    """from_category with an explicit None for is_min_exclusive / is_max_exclusive / caption (inherited), None flags
+    without a source (falsy), then Scalars, CheckValueForCategory (with, without unit) and ScalarMinMaxValidator at
+    the exact limits (where only the inherited flag decides), inside and outside; GetDefaultValue of known and
+    unknown categories"""
+    rng = ctx.fresh_rng("C12api" + salt)
+    for i in range(n):
+        qt = rng.choice(QTYPES_QUICK)
+        us = ctx.units[qt]
+        du = rng.choice(us[:6])
+        lo, hi = rng.choice([(-10.0, 10.0), (0.0, 50.0), (2.0, 1000.0), (-5.0, None), (None, 7.5)])
+        pminx, pmaxx = rng.random() < 0.5, rng.random() < 0.5
+        inside = (lo + hi) / 2 if lo is not None and hi is not None else (lo + 1 if lo is not None else hi - 1)
+        pcap = rng.choice(["", "Parent Caption", "depth of the well"])
+        ops = [add_op("parent", qt, du=du, dv=inside, mn=lo, mx=hi, minx=pminx, maxx=pmaxx, caption=pcap)]
+        kw = dict(frm="parent", minx=rng.choice([None, None, True, False]), maxx=rng.choice([None, None, True, False]),
+                  caption=rng.choice([None, None, "", "Child"]))
+        if rng.random() < 0.3:
+            kw["dv"] = inside
+        if rng.random() < 0.25:
+            kw["mn"] = (lo if lo is not None else -100.0) + rng.choice([0.0, 0.5])
+        ops.append(add_op("child", **kw))
+        # None flags without a source: falsy, so a default can be derived and the limits are inclusive
+        ops.append(add_op("orphan", qt, du=du, mn=lo, mx=hi, minx=rng.choice([None, False]), maxx=None,
+                          dv=rng.choice([None, inside]), caption=rng.choice([None, "", "Orphan"])))
+        if rng.random() < 0.3:
+            ops.append(add_op("grandchild", frm="child", minx=None, maxx=None, caption=None))
+        cats = [o["category"] for o in ops]
+        for c in cats + ["missing"]:
+            ops.append(gdv_op(c))
+        for c in cats:
+            ops.append(obj_op(c, None, o_scalar(0.0), ["c", "i"], default=True))
+            units = [du, None] + rng.sample(us, 2)
+            for u in units:
+                lims = [L for L in (lo, hi) if L is not None]
+                ys = lims + [inside, rng.choice(lims) + rng.choice([-1, 1]) * rng.choice([1e-3, 3.0, 1e4])]
+                if rng.random() < 0.3:
+                    ys.append(rng.choice([math.nan, math.inf, -math.inf]))
+                for y in ys:
+                    x = y if u in (None, du) or y != y else float(_conv(ctx, qt, du, u, y))
+                    r = rng.random()
+                    if u is None or r < 0.45:
+                        ops.append(cvc_op(c, x, u))
+                    elif r < 0.8:
+                        ops.append(val_op(c, u, x))
+                    else:
+                        ops.append(obj_op(c, u, o_scalar(x), ["i", "c"]))
+        ops.append(cvc_op("missing", 1.0, rng.choice([None, du])))
+        ops.append(cvc_op("parent", 1.0, rng.choice(["nope", rng.choice(ctx.units[rng.choice(ctx.types)])])))
+        ops.append(val_op("parent", "nope", 1.0))
+        yield history(ops)
+
+
 def cases(ctx):
     if ctx.tier == "quick":
         rng = ctx.fresh_rng("C12types")
@@ -540,6 +868,9 @@ def cases(ctx):
         yield from _copy_histories(ctx, "q", 40)
         yield from _from_histories(ctx, "q", 40)
         yield from _reregister_histories(ctx, "q", 40)
+        yield _prov_fixed_history()
+        yield from _prov_histories(ctx, "q", 60)
+        yield from _api_histories(ctx, "q", 40)
     else:
         rng = ctx.fresh_rng("C12types")
         extra = rng.sample(ctx.types, 12)
@@ -550,6 +881,9 @@ def cases(ctx):
         yield from _copy_histories(ctx, "t", 400)
         yield from _from_histories(ctx, "t", 300)
         yield from _reregister_histories(ctx, "t", 300)
+        yield _prov_fixed_history()
+        yield from _prov_histories(ctx, "t", 600)
+        yield from _api_histories(ctx, "t", 400)
 
 
 def model_line(c):
@@ -624,6 +958,90 @@ def _build(op):
     return Array(cat, _mk_values(o), unit) if named else Array(_mk_values(o), unit)
 
 
+_PYOPS = {"add": lambda a, b: a + b, "sub": lambda a, b: a - b, "mul": lambda a, b: a * b, "div": lambda a, b: a / b}
+
+
+def _with_quantity(q, o, fixed, form):
+    """an object with the given quantity and the values of `o`"""
+    from barril.basic.fraction import FractionValue
+    from barril.units import Array, FixedArray, FractionScalar, Scalar
+
+    t = o["t"]
+    if t == "scalar":
+        return Scalar(q, U(o["v"])) if form == "ctor" else Scalar.CreateWithQuantity(q, U(o["v"]))
+    if t == "fraction":
+        fv = FractionValue(number=U(o["number"]), fraction=(o["n"], o["d"]))
+        return FractionScalar(q, fv) if form == "ctor" else FractionScalar.CreateWithQuantity(q, fv)
+    if fixed and t == "flat":
+        return FixedArray(len(o["vs"]), q, _mk_values(o))
+    return Array(q, _mk_values(o)) if form == "ctor" else Array.CreateWithQuantity(q, _mk_values(o))
+
+
+def _build_prov(n):
+    """the object a production tree stands for, on the real code (the private database is the singleton)"""
+    import pickle
+    from collections import OrderedDict
+
+    from barril.units import ObtainQuantity
+
+    p = n["p"]
+    if p == "direct":
+        return _build(dict(obj=n["obj"], cat=n["cat"], unit=n["unit"], default=False, fixed=n.get("fixed")))
+    if p == "map":
+        items = [(c, [u, e]) for c, u, e in n["entries"]]
+        return _with_quantity(ObtainQuantity(dict(items) if n.get("plain") else OrderedDict(items)), n["obj"],
+                              n.get("fixed"), n.get("form"))
+    if p == "list":
+        cats = n["cats"]
+        q = ObtainQuantity([(u, e) for u, e in n["units"]], cats if cats is None or isinstance(cats, str) else list(cats))
+        return _with_quantity(q, n["obj"], n.get("fixed"), n.get("form"))
+    if p == "num":
+        x = U(n["x"])
+        obj = _build_prov(n["of"])
+        return _PYOPS[n["op"]](x, obj) if n["left"] else _PYOPS[n["op"]](obj, x)
+    if p == "bin":
+        a = _build_prov(n["a"])
+        b = _build_prov(n["b"])
+        return _PYOPS[n["op"]](a, b)
+    if p == "pickle":
+        return pickle.loads(pickle.dumps(_build_prov(n["of"])))
+    if p == "copy":
+        return _build_prov(n["of"]).CreateCopy(unit=n["unit"], category=n["cat"])
+    if p == "validated":
+        obj = _build_prov(n["of"])
+        _run_calls(obj, n["calls"])
+        return obj
+    raise ValueError(p)
+
+
+def _result_elements(obj):
+    """(numbers of the object as floats, is it a flat array?)"""
+    from barril.units import Array
+
+    if isinstance(obj, Array):
+        vals = obj.GetValues()
+        nested = len(vals) > 0 and isinstance(list(vals)[0], tuple)
+        return _flatten(vals), not nested
+    return [float(obj.GetValue())], False
+
+
+def _run_prov(op):
+    import warnings
+
+    try:
+        with warnings.catch_warnings():
+            warnings.simplefilter("ignore")
+            obj = _build_prov(op["tree"])
+    except Exception as e:
+        return dict(err=err_kind(e))
+    q = obj.GetQuantity()
+    els, _flat = _result_elements(obj)
+    res = dict(unit=obj.GetUnit(), cat=obj.GetCategory(), derived=bool(q.IsDerived()), kind=type(obj).__name__,
+               vals=[_num(x) for x in els], outs=_run_calls(obj, op["calls"]))
+    res["conv"] = None if q.IsDerived() else _conv_real(obj, els)
+    return dict(ok=res)
+
+
 def _num(x):
     try:
         return T(float(x))
@@ -659,16 +1077,31 @@ def _run_op(db, op):
                                   default_value=None if op["dv"] is None else U(op["dv"]),
                                   min_value=None if op["min"] is None else U(op["min"]),
                                   max_value=None if op["max"] is None else U(op["max"]),
-                                  is_min_exclusive=op["minx"], is_max_exclusive=op["maxx"], from_category=op["frm"])
+                                  is_min_exclusive=op["minx"], is_max_exclusive=op["maxx"], from_category=op["frm"],
+                                  caption=op.get("caption", ""))
         except Exception as e:
             return dict(err=err_kind(e))
-        return dict(ok=dict(qtype=info.quantity_type, valid=None if info.valid_units is None else list(info.valid_units),
+        try:
+            gdv = _num(db.GetDefaultValue(op["category"]))
+        except Exception as e:
+            gdv = "err:" + err_kind(e)
+        return dict(ok=dict(gdv=gdv, caption=info.caption,
+                            qtype=info.quantity_type, valid=None if info.valid_units is None else list(info.valid_units),
                             du=info.default_unit, dv=_num(info.default_value),
                             min=None if info.min_value is None else _num(info.min_value),
                             max=None if info.max_value is None else _num(info.max_value),
                             minx=bool(info.is_min_exclusive), maxx=bool(info.is_max_exclusive)))
     if op["k"] == "copy":
         return _run_copy(op)
+    if op["k"] == "prov":
+        return _run_prov(op)
+    if op["k"] == "gdv":
+        try:
+            return dict(ok=_num(db.GetDefaultValue(op["cat"])))
+        except Exception as e:
+            return dict(err=err_kind(e))
+    if op["k"] in ("cvc", "val"):
+        return _run_check(db, op)
     try:
         obj = _build(op)
     except Exception as e:
@@ -695,6 +1128,76 @@ def _run_op(db, op):
         except Exception:
             conv = None
     res["conv"] = conv
+    return dict(ok=res)
+
+
+_PHRASES = (("greater than", ">"), ("less than", "<"), ("greater or equal to", ">="), ("less or equal to", "<="))
+
+
+def _decode_message(msg):
+    """(operator, limit) named by a validator message "... Must be <comparison in words> <limit!r>."; "?" for a part
+    that cannot be read (the wording itself is not compared)"""
+    tail = msg.rsplit("Must be ", 1)[-1].strip()
+    if tail.endswith("."):
+        tail = tail[:-1]
+    op = "?"
+    for words, sign in _PHRASES:
+        if tail.startswith(words + " "):
+            op = sign
+    try:
+        limit = T(float(tail.rsplit(" ", 1)[-1]))
+    except Exception:
+        limit = "?"
+    return op, limit
+
+
+def _validator_out(scalar):
+    """what ScalarMinMaxValidator says about the scalar: ok / the decoded complaint / an error"""
+    from barril.units.scalar_validation.scalar_min_max_validator import ScalarMinMaxValidator
+
+    try:
+        err = ScalarMinMaxValidator.CreateScalarCheckErrorMsg(scalar, "x")
+        warn = ScalarMinMaxValidator.CreateScalarCheckWarningMsg(scalar, "x")
+    except Exception as e:
+        return dict(err=err_kind(e))
+    if (err is None) != (warn is None):
+        return dict(err="other", detail="error and warning messages disagree")
+    if err is None:
+        return dict(ok=None)
+    op, limit = _decode_message(err)
+    return dict(verr=dict(op=op, limit=limit, value="?"), text_differs=err.split(". ", 1)[-1] != warn.split(". ", 1)[-1])
+
+
+def _check_scalar(db, op):
+    """the Scalar a `cvc` / `val` operation is about"""
+    from barril.units import Scalar
+
+    unit = op["unit"] if op["unit"] is not None else db.GetDefaultUnit(op["cat"])
+    return Scalar(op["cat"], U(op["v"]), unit)
+
+
+def _run_check(db, op):
+    from barril.units.exceptions import QuantityValidationError
+
+    res = dict(unit=None, conv=None)
+    try:
+        s = _check_scalar(db, op)
+        res["unit"] = s.GetUnit()
+        res["conv"] = _conv_real(s, [U(op["v"])])
+    except Exception as e:
+        if op["k"] == "val":
+            return dict(err=err_kind(e))
+        s = None
+    if op["k"] == "val":
+        res["out"] = _validator_out(s)
+        return dict(ok=res)
+    try:
+        db.CheckValueForCategory(op["cat"], U(op["v"]), op["unit"])
+        res["out"] = dict(ok=None)
+    except QuantityValidationError as e:
+        res["out"] = dict(verr=dict(op=e.operator, limit=_num(e.limit_value), value=_num(e.value)))
+    except Exception as e:
+        res["out"] = dict(err=err_kind(e))
     return dict(ok=res)
 
 
@@ -770,7 +1273,23 @@ def impl(c, ctx):
     n = ctx.notes.setdefault("operations", {})
     for op, o in zip(ops, outs):
         if op["k"] == "add":
-            key = "add/" + (o["err"] if "err" in o else "ok") + ("/from" if op["frm"] else "")
+            key = "add/" + (o["err"] if "err" in o else "ok") + ("/from" if op["frm"] else "") + \
+                ("/None-flag" if op["minx"] is None or op["maxx"] is None else "") + \
+                ("/None-caption" if op.get("caption", "") is None else "")
+        elif op["k"] in ("gdv", "cvc", "val"):
+            r = o if op["k"] == "gdv" or "err" in o else o["ok"]["out"]
+            key = "%s/%s" % (op["k"], ("verr" + r["verr"]["op"]) if "verr" in r else ("err-" + r["err"]) if "err" in r else "ok")
+            if op["k"] == "cvc" and op["unit"] is None:
+                key += "/no-unit"
+        elif op["k"] == "prov":
+            if "err" in o:
+                key = "prov/%s/err-%s" % (op["tree"]["p"], o["err"])
+            else:
+                r = o["ok"]
+                key = "prov/%s/%s/%s" % (op["tree"]["p"], r["kind"], "derived" if r["derived"] else "one-category")
+                for call, rr in zip(op["calls"], r["outs"]):
+                    kk = "provcall/%s/%s" % (call, ("verr" + rr["verr"]["op"]) if "verr" in rr else ("err-" + rr["err"]) if "err" in rr else repr(rr["ok"]))
+                    n[kk] = n.get(kk, 0) + 1
         elif "err" in o:
             key = "obj/create-" + o["err"]
         elif op["k"] == "copy":
@@ -875,6 +1394,53 @@ def _agree_obj(op, io, mo, cats, ctx):
         return "creation: one side fails: impl=%s model=%s" % (io, mo)
     if "err" in io:
         return None if io["err"] == mo["err"] else "creation error kinds differ: impl=%s model=%s" % (io["err"], mo["err"])
+    if op["k"] == "gdv":
+        return None if _same_val(io["ok"], mo["ok"], 0) and ("/" not in mo["ok"] or exact(U(io["ok"])) == qparse(mo["ok"])) \
+            else "default value: impl=%s model=%s" % (io["ok"], mo["ok"])
+    if op["k"] in ("cvc", "val"):
+        a, b = io["ok"], mo["ok"]
+        x, y = a["out"], b["out"]
+        if "err" in x or "err" in y:
+            return None if x.get("err") == y.get("err") else "impl=%s model=%s" % (x, y)
+        if op["k"] == "val" and "verr" in x and "verr" in y:
+            # the complaint is read off the message: verdict, then operator and limit when they can be read
+            ci = cats.get(op["cat"])
+            why = _agree_payload(dict(a, outs=[dict(ok=False)]), dict(b, outs=[dict(ok=False)]), ci, ctx)
+            lims = [qparse(t) for t in (ci["min"], ci["max"]) if t is not None] if ci else []
+            if why or _tie(None, a, dict(b, _limits=lims)):
+                return why
+            xv, yv = x["verr"], y["verr"]
+            if xv["op"] != "?" and xv["op"] != yv["op"]:
+                return "validator: operator impl=%s model=%s" % (xv["op"], yv["op"])
+            if xv["limit"] != "?" and exact(U(xv["limit"])) != qparse(yv["limit"]):
+                return "validator: limit impl=%s model=%s" % (xv["limit"], yv["limit"])
+            return None
+        pa = dict(a, outs=[dict(ok=None) if "ok" in x else x])
+        pb = dict(b, outs=[dict(ok=None) if "ok" in y else y])
+        if op["k"] == "val":   # verdicts only (one side accepts)
+            pa["outs"] = [dict(ok="verr" not in x)]
+            pb["outs"] = [dict(ok="verr" not in y)]
+        if a["unit"] is None:
+            return _agree_payload(pa, dict(pb, unit="0"), cats.get(op["cat"]), ctx, derived=True)
+        return _agree_payload(pa, pb, cats.get(op["cat"]), ctx)
+    if op["k"] == "prov":
+        a, b = io["ok"], mo["ok"]
+        if a["derived"] != b["derived"]:
+            return ("the quantity of the result: impl %s (category %r, unit %r), model %s"
+                    % ("derived" if a["derived"] else "one category", a["cat"], a["unit"],
+                       "derived" if b["derived"] else "one category"))
+        if len(a["vals"]) != len(b["vals"]):
+            return "number of values: impl=%d model=%d" % (len(a["vals"]), len(b["vals"]))
+        Mv = qparse(b.get("Mv", b["M"]))
+        for r, m in zip(a["vals"], b["vals"]):
+            if not _same_val(r, m, Mv):
+                return "value of the result differs: impl=%s model=%s" % (U(r) if r != "?" else r, m)
+        if b["derived"]:
+            b = dict(b, unit="0")
+            return _agree_payload(a, b, None, ctx, derived=True)
+        if a["cat"] != unsym(int(b["cat"])):
+            return "category of the result: impl=%s model=%s" % (a["cat"], unsym(int(b["cat"])))
+        return _agree_payload(a, b, cats.get(a["cat"]), ctx)
     if op["k"] == "copy":
         why = _agree_payload(io["ok"]["src"], mo["ok"]["src"], cats.get(op["cat"]), ctx)
         if why:
@@ -917,6 +1483,14 @@ def _agree_add(op, io, mo):
     dv = b["dv"]
     if not _same_val(a["dv"], dv, abs(qparse(dv)) if "/" in dv else 0) or ("/" in dv and exact(U(a["dv"])) != qparse(dv)):
         return "default value: impl=%s model=%s" % (a["dv"], dv)
+    gdv = b.get("gdv")
+    if isinstance(gdv, dict) or str(a.get("gdv", "")).startswith("err:"):
+        if not (isinstance(gdv, dict) and a.get("gdv") == "err:" + gdv.get("err", "")):
+            return "GetDefaultValue: impl=%s model=%s" % (a.get("gdv"), gdv)
+    elif gdv is not None and (not _same_val(a["gdv"], gdv, 0) or ("/" in gdv and exact(U(a["gdv"])) != qparse(gdv))):
+        return "GetDefaultValue: impl=%s model=%s" % (a["gdv"], gdv)
+    if b.get("caption", "0") != "0" and a.get("caption") != unsym(int(b["caption"])):
+        return "caption: impl=%r model=%r" % (a.get("caption"), unsym(int(b["caption"])))
     return None
 
 
@@ -1094,6 +1668,83 @@ def _oracle_copy(db, op, wants):
     return _judge(db, cp, _flatten(vals), not nested, wants.get(cp.GetCategory()), show)
 
 
+def _oracle_prov(db, op, wants):
+    """an object that came out of operations is an object of ITS category holding ITS amounts: when its quantity is
+    one category with exponent 1 it is judged exactly like a directly created object of that category"""
+    import warnings
+
+    try:
+        with warnings.catch_warnings():
+            warnings.simplefilter("ignore")
+            obj = _build_prov(op["tree"])
+    except Exception:
+        return None
+    q = obj.GetQuantity()
+    ents = list(q.GetCategoryToUnitAndExps().items())
+    show = dict(produced_by=op["tree"], result_type=type(obj).__name__)
+    if len(ents) != 1 or ents[0][1][1] != 1:
+        if obj.IsValid() is not True:
+            return dict(clause="a derived quantity has no limits", got=obj.IsValid(), **show)
+        return None
+    try:
+        db.GetCategoryInfo(ents[0][0])
+    except Exception:
+        return None
+    els, flat = _result_elements(obj)
+    show["result_values"] = els[:8]
+    return _judge(db, obj, els, flat, wants.get(ents[0][0]), show)
+
+
+class _Checked:
+    """`CheckValueForCategory(category, value, unit)` / `ScalarMinMaxValidator` seen as the validity check of the value
+    they are about: judged like `Scalar(category, value, unit)`"""
+
+    def __init__(self, scalar, check):
+        self._scalar, self._check = scalar, check
+
+    def GetQuantity(self):
+        return self._scalar.GetQuantity()
+
+    def GetCategory(self):
+        return self._scalar.GetCategory()
+
+    def CheckValidity(self):
+        self._check()
+
+    def IsValid(self):
+        try:
+            self._check()
+        except ValueError:
+            return False
+        return True
+
+
+def _oracle_check(db, op, wants):
+    from barril.units.exceptions import QuantityValidationError
+
+    try:
+        s = _check_scalar(db, op)
+    except Exception:
+        return None
+    if op["k"] == "cvc":
+        def check():
+            db.CheckValueForCategory(op["cat"], U(op["v"]), op["unit"])
+        what = "CheckValueForCategory(%r, %r, %r)" % (op["cat"], U(op["v"]), op["unit"])
+    else:
+        def check():
+            out = _validator_out(s)
+            if "err" in out:
+                raise RuntimeError("ScalarMinMaxValidator: %s" % out)
+            if "verr" in out:
+                v = out["verr"]
+                if v["op"] == "?" or v["limit"] == "?":
+                    raise ValueError("a complaint that cannot be read")
+                # the amount is printed with 6 digits only: not judged (NaN passes the amount clauses)
+                raise QuantityValidationError("", "", math.nan, v["op"], U(v["limit"]))
+        what = "ScalarMinMaxValidator on Scalar(%r, %r, %r)" % (op["cat"], U(op["v"]), op["unit"])
+    return _judge(db, _Checked(s, check), [U(op["v"])], False, wants.get(op["cat"]), dict(checked_through=what))
+
+
 def _want(op, wants):
     """the limits requested by a registration (None = cannot be told from the history)"""
     w = dict(min=None if op["min"] is None else U(op["min"]), max=None if op["max"] is None else U(op["max"]),
@@ -1102,10 +1753,14 @@ def _want(op, wants):
         parent = wants.get(op["frm"])
         if parent is None:
             return None
+        for flag in ("minx", "maxx"):      # an explicit None is inherited like a missing limit
+            if w[flag] is None:
+                w[flag] = parent[flag]
         if w["min"] is None:
             w["min"] = parent["min"]
         if w["max"] is None:
             w["max"] = parent["max"]
+    w["minx"], w["maxx"] = bool(w["minx"]), bool(w["maxx"])
     return w
 
 
@@ -1181,6 +1836,12 @@ def oracle(c, ctx):
             try:
                 if op["k"] == "copy":
                     f = _oracle_copy(db, op, wants)
+                elif op["k"] == "prov":
+                    f = _oracle_prov(db, op, wants)
+                elif op["k"] == "gdv":
+                    continue
+                elif op["k"] in ("cvc", "val"):
+                    f = _oracle_check(db, op, wants)
                 else:
                     try:
                         obj = _build(op)
@@ -1199,6 +1860,9 @@ def oracle(c, ctx):
 
 
 def search(ctx):
+    yield _prov_fixed_history()
+    yield from _prov_histories(ctx, "s", 80)
+    yield from _api_histories(ctx, "s", 40)
     yield from _reregister_histories(ctx, "s", 60)
     yield from _copy_histories(ctx, "s", 60)
     yield from _from_histories(ctx, "s", 60)
